@@ -124,6 +124,53 @@ def run_one(prop, cfg, r, tier, seed, log):
     return res
 
 
+def search(prop, cfg, seed, known_classes, box, log):
+    """DESIGN §4 "Search": a proof obligation or the correspondence has broken and the run itself
+    exhibited no failing input.  Time-boxed campaign: the harness drivers are re-run at thorough size
+    with fresh seeds and only the property's oracle verdicts (the property evaluated directly on the
+    implementation) are read.  Returns (failures, rounds, records)."""
+    found, rounds, records = [], 0, 0
+    t0 = time.time()
+    s = seed
+    while time.time() - t0 < box and not found and cfg.get("runs"):
+        s += 1000003
+        rounds += 1
+        for r in cfg.get("runs", []):
+            left = box - (time.time() - t0)
+            if left <= 1:
+                break
+            args = r.get("args_thorough", r.get("args", []))
+            e = dict(os.environ)
+            e.update({"VERIF_SEED": str(s), "VERIF_TIER": "thorough", "RUST_BACKTRACE": "0", "CARGO_NET_OFFLINE": "true"})
+            e.update(r.get("env", {}))
+            d = os.path.join(RUN, prop)
+            os.makedirs(d, exist_ok=True)
+            try:
+                p = subprocess.Popen([os.path.join(HARNESS, "target", "debug", r["bin"])] + args, cwd=d, env=e,
+                                     stdout=subprocess.PIPE, stderr=subprocess.DEVNULL, text=True, errors="replace")
+            except OSError:
+                continue
+            try:
+                for line in p.stdout:
+                    if line.startswith("!oracle "):
+                        parts = line.rstrip("\n").split(" ", 3)
+                        if len(parts) >= 3 and parts[1] == prop and parts[2] not in known_classes:
+                            found.append((parts[2], (parts[3] if len(parts) > 3 else "") + f"  [search seed {s}]"))
+                            if len(found) >= 20:
+                                break
+                    elif not line.startswith("#"):
+                        records += 1
+                    if time.time() - t0 > box:
+                        break
+            finally:
+                p.kill()
+                p.wait()
+            if found:
+                break
+    log(f"search: {rounds} rounds, {records} records, {len(found)} failing inputs, {time.time() - t0:.0f}s")
+    return found, rounds, records
+
+
 def digest(line):
     return hashlib.blake2b(line.encode(), digest_size=8).digest()
 
@@ -276,6 +323,15 @@ def main(argv):
     if a["skips"]:
         broken.append(f"{a['skips']} records in scope are not covered by the model")
 
+    searched = None
+    if broken and not new_oracle and hb_ok and not os.environ.get("VERIF_NO_SEARCH"):
+        box = float(os.environ.get("VERIF_SEARCH_S", "90" if tier == "quick" else "600"))
+        found, rounds, recs = search(prop, cfg, seed, known_classes, box, log)
+        searched = (f"the run's own oracle verdicts on {a['records']} implementation records show no violation; a further "
+                    f"time-boxed search ({box:.0f}s: {rounds} harness rounds at thorough size with fresh seeds, {recs} records, "
+                    f"property oracle evaluated on the implementation) found {len(found)} failing inputs")
+        new_oracle = found
+
     wall = time.time() - t0
     violations = 0
     lines_out = []
@@ -292,6 +348,7 @@ def main(argv):
                    "failures": [{"class": c, "detail": d} for c, d in new_oracle[:50]],
                    "n_failures": len(new_oracle),
                    "also_broken": broken,
+                   "found_by": searched or "the run's own oracle verdicts",
                    "model_vs_impl_diffs": a["diffs"][:20],
                    "replay_cmd": f"cd /verif && ./check {prop} --replay {rp}"}, open(rp, "w"), indent=1, ensure_ascii=False)
         lines_out.append(f"VIOLATION property={prop} replay={rp}")
@@ -306,7 +363,7 @@ def main(argv):
                    "proof_output": lb.get("proof_out", ""),
                    "model_vs_impl_diffs": a["diffs"][:40],
                    "uncovered_records": a["skip_samples"],
-                   "searched": f"oracle evaluated on {a['records']} implementation records, none violates the property",
+                   "searched": searched or f"oracle evaluated on {a['records']} implementation records, none violates the property",
                    "replay_cmd": f"cd /verif && ./check {prop} --replay {rp}"}, open(rp, "w"), indent=1, ensure_ascii=False)
         lines_out.append(f"VIOLATION property={prop} replay={rp} no-failing-input-found")
         rc_final = 1
